@@ -21,11 +21,21 @@ written in plain Python (``math`` only, no biogeme import).
         its two floating-point neighbours x ways of passing the parameters (number, Numeric,
         free / fixed Beta, ``betas=`` value, expression of a Beta, table column, defaults);
         integral over the support by composite Simpson on engine-evaluated values.
+        loglikelihoodregression additionally with every scale of the menu NEGATED: its documented closed form
+        uses sigma only through sigma^2 (no positivity note, no guard, sigma is 'typically a parameter'), so a
+        negative sigma is inside its domain and gives the value of |sigma|.  The density helpers document
+        sigma > 0 and the documented phi((y-m)/sigma)/sigma of likelihoodregression is negative there: a
+        negative scale is outside their domain (likelihoodregression is evaluated and counted, not compared).
  (seg)  Segmentation.segmented_beta / segmented_code / segmented_beta(): 0..2 (thorough: 3)
         discrete variables x 2..3 categories x every reference (and None) x parameter
         configurations (value, bounds, status) x every row (all value combinations + an unmapped
         value); the generated code is executed and must give the same values and the same
         parameter set (names, values, bounds, status).
+        Merged levels: mappings that give the SAME category name to several values - every surjection of 3
+        (thorough: also 4) values onto 2 (thorough: 2..3) names, i.e. every position of the repeated name -
+        x every reference (and None), alone and next to a plain second variable on either side (thorough:
+        both merged): every value of the reference category evaluates to the reference value alone, the
+        repeated non-reference name stands for ONE shift parameter.
  (nest) NestsForNestedLogit.correlation: every subset left alone x every set partition of the
         rest for 2..4 (thorough: 5) alternatives x two labelings x nest-parameter kinds (number,
         free / fixed Beta, expression) x ``parameters=`` (none, all, partial) x mu x names (none,
@@ -53,7 +63,7 @@ RULE = ('one case per (helper, configuration, way of passing parameters, argumen
         'closed form, plus one per integral / parameter-set / generated-code / correlation-entry comparison; '
         'non-trivial = the reference value is informative: piecewise argument beyond the first threshold, '
         'Box-Cox x not in {0,1}, density inside the support or on a kink, segmented row in a non-reference '
-        'segment, correlation entry of two alternatives in the same nest (or an integral / parameter-set check); '
+        'segment or on a level merged into the reference category, correlation entry of two alternatives in the same nest (or an integral / parameter-set check); '
         'distinct = distinct (helper, configuration, passing form, argument) keys')
 ASSUMPTIONS = [
     'continuous arguments and parameters are covered on finite grids that contain every threshold / kink / the '
@@ -71,6 +81,8 @@ ASSUMPTIONS = [
     'integrals are composite Simpson sums on engine-evaluated nodes (panels aligned with the kinks; lognormal in '
     'the variable log x); tolerance 1e-6',
     'the engine arithmetic (exp, log, pow, comparisons) is exercised, not separately modelled',
+    'a negative scale is explored for loglikelihoodregression only (documented form in sigma^2); for the density '
+    'helpers (documented sigma > 0) and likelihoodregression (documented phi(.)/sigma < 0 there) it is out of domain',
 ]
 ANCHOR_FILES = ['src/biogeme/models/piecewise.py', 'src/biogeme/models/boxcox.py', 'src/biogeme/distributions.py',
                 'src/biogeme/loglikelihood.py', 'src/biogeme/segmentation.py', 'src/biogeme/nests.py']
@@ -96,6 +108,7 @@ def alph(seed: int) -> dict:
              [(-1, 1, 0), (0, 100, 10), (-0.5, 0.5, 0.25), (3, 4, 3.5)], [(-1, 1, 0), (0, 7, 6), (-12, -11, -11.75), (1.5, 6, 2)]][k],
         seg_vals=[[1, 2, 3], [0, 1, 2], [10, 20, 30], [-1, 0, 5]][k],
         seg_vals2=[[0, 1, 2], [1, 2, 3], [7, 8, 9], [2, 4, 6]][k],
+        seg_val_extra=[4, 3, 40, 9][k],  # a fourth level of the first variable (merged levels, thorough tier)
         seg_beta=[[(0, None, None, 0), (1.5, -10, 10, 0), (-2, None, 5, 1), (0.25, -1, None, 0)],
                   [(0, None, None, 0), (-0.75, -5, 5, 0), (3, 0, None, 1), (2, None, 10, 0)],
                   [(0, None, None, 0), (2.5, 0, 100, 0), (-1, -2, -0.5, 1), (1, None, 1, 0)],
@@ -662,7 +675,7 @@ def other_point(dist, params):
         a, b, c = params
         return [a - 0.5, b + 0.5, c + (b - c) / 2.0]
     mu, s = params
-    return [mu + 0.25, s + 0.5]
+    return [mu + 0.25, s + 0.5 if s > 0 else s - 0.5]
 
 
 def check_dist(cfg, rec: Rec):
@@ -696,6 +709,18 @@ def check_dist(cfg, rec: Rec):
             names = ('model', 'sigma')
             rel, ab = 1e-10, 1e-10
             integral_kind = None
+        if s < 0:
+            # A negative scale.  The documented closed form of loglikelihoodregression,
+            #   -(y-m)^2 / (2 sigma^2) - log(sigma^2) / 2 - log(2 pi) / 2,
+            # uses sigma only through sigma^2, carries no positivity note and no guard, and sigma is 'typically a
+            # parameter' (an unbounded Beta takes negative values during estimation): sigma < 0 is inside its domain
+            # and the value is the one of |sigma|.  normalpdf / lognormalpdf / logisticcdf document sigma > 0 (and
+            # refuse a non-positive number), and the documented form of likelihoodregression, phi((y-m)/sigma)/sigma,
+            # is negative for sigma < 0 - not a likelihood: for these a negative scale is outside the documented
+            # domain (likelihoodregression is evaluated and counted, not compared).
+            if dist == 'normalpdf':
+                raise ValueError('normalpdf: a non-positive scale is outside the documented domain')
+            region = lambda x: 'sigma<0'  # noqa
     elif dist == 'lognormalpdf':
         mu, s = params
         if mu + 12 * s > 700 or mu - 12 * s < -700:
@@ -774,6 +799,11 @@ def check_dist(cfg, rec: Rec):
         rec.violation(f'C17|{dist}|raises={exc_name(e)},params-as={kind}',
                       f'{dist} with parameters {params} passed as {kind}: {exc_name(e)}: {e}', case_of(), observed=repr(e))
         return
+    if dist == 'likelihoodregression' and params[1] < 0:
+        rec.count('skipped_out_of_domain_likelihoodregression_negative_sigma', len(grid))
+        for x, g in zip(grid, vals):
+            rec.case(None, (x, g), outcome='dist:likelihoodregression:sigma<0:not-compared')
+        return
     for x, g in zip(grid, vals):
         e = ref(x)
         rg = region(x)
@@ -850,6 +880,36 @@ def seg_configs(a, tier):
         # three variables: a third one with two categories, every reference
         third = [dict(var='age', mapping=[[41, 'young'], [42, 'old']], ref=r) for r in (None, 'young', 'old')]
         structs += [[s, t, u] for s in g_side for t in i_side for u in third if ident(s) and ident(t)]
+    # ---- merged levels: several values of the variable mapped to the SAME category name (every surjection of the
+    # value list onto 2..n-1 category names, hence every position of the repeated name in the mapping) x every
+    # reference (and None = the category of the first entry).  All structures above are appended to, never
+    # reordered: the rotating options of the configurations that existed before stay what they were.
+    def merged(v, vals, ncat):
+        out = []
+        for f in itertools.product(range(ncat), repeat=len(vals)):
+            if len(set(f)) != ncat:
+                continue
+            mapping = [[vals[i], CAT_NAMES[v][c]] for i, c in enumerate(f)]
+            for ref in [None] + CAT_NAMES[v][:ncat]:
+                out.append(dict(var=VAR_NAMES[v], mapping=mapping, ref=ref))
+        return out
+
+    g_merged = merged(0, a['seg_vals'], 2)
+    i_merged = merged(1, a['seg_vals2'], 2)
+    if tier == 'thorough':
+        four = a['seg_vals'] + [a['seg_val_extra']]
+        g_merged += merged(0, four, 2) + merged(0, four, 3)
+    ident_ = lambda s: [m[1] for m in s['mapping']] == CAT_NAMES[VAR_NAMES.index(s['var'])][:len(s['mapping'])]  # noqa
+    g_plain = [s for s in g_side if ident_(s)]
+    i_plain = [s for s in i_side if ident_(s)]
+    structs += [[s] for s in g_merged]
+    if tier == 'thorough':
+        structs += [[s] for s in i_merged]
+    # two variables: a merged one next to every plain (identity order) one, on either side; both merged
+    structs += [[s, t] for s in g_merged for t in i_plain if tier == 'thorough' or len(t['mapping']) == 2]
+    structs += [[s, t] for s in g_plain for t in i_merged if tier == 'thorough' or len(s['mapping']) == 3]
+    if tier == 'thorough':
+        structs += [[s, t] for s in merged(0, a['seg_vals'], 2) for t in i_merged]
     cfgs = []
     for si, st in enumerate(structs):
         for bi, beta in enumerate(a['seg_beta']):
@@ -870,6 +930,8 @@ def check_seg(cfg, rec: Rec):
         return dict(part='seg', cfg=cfg, **kw)
 
     tag = f"vars={len(struct)},status={'free' if status == 0 else 'fixed'}"
+    if any(len({m[1] for m in s['mapping']}) < len(s['mapping']) for s in struct):
+        tag += ',merged-levels'  # some category name is given to several values of the variable
     beta = Beta('B', fnum(init), lb, ub, status)
     tuples = []
     for s in struct:
@@ -973,16 +1035,23 @@ def check_seg(cfg, rec: Rec):
             e = theta['B']
             in_shift = False
             mapped = True
+            merged_ref = merged_other = False
             for s, r, val in zip(struct, refs, row):
                 cat = {m[0]: m[1] for m in s['mapping']}.get(val)
                 if cat is None:
                     mapped = False
                     continue
+                if sum(1 for m in s['mapping'] if m[1] == cat) > 1:
+                    merged_ref = merged_ref or cat == r
+                    merged_other = merged_other or cat != r
                 if cat != r:
                     in_shift = True
                     e = e + theta[f'B_{cat}']
-            oc = 'seg:' + ('shifted' if in_shift else 'reference') + ('' if mapped else '+unmapped')
-            rec.case(('seg', mode, str(cfg), row) if in_shift else None, (row, vals[ri]), outcome=oc)
+            oc = ('seg:' + ('shifted' if in_shift else 'reference') + ('' if mapped else '+unmapped')
+                  + ('+merged-reference-level' if merged_ref else '') + ('+merged-level' if merged_other else ''))
+            # a level merged into the reference category is informative although no shift applies: the reference
+            # value alone is expected there for every one of the merged values
+            rec.case(('seg', mode, str(cfg), row) if (in_shift or merged_ref) else None, (row, vals[ri]), outcome=oc)
             if cfg.get('sample') and not rec.samples and in_shift and mode == 'values':
                 rec.sample(dict(helper='segmented_beta', structure=struct, beta=cfg['beta'], row=list(row), parameter_values=theta,
                                 engine_value=vals[ri], reference_plus_shifts=e, generated_code=code))
@@ -992,7 +1061,8 @@ def check_seg(cfg, rec: Rec):
                               f'({mode}): {vals[ri]}; reference + shifts = {e}',
                               case_of(row=list(row), mode=mode), expected=e, observed=vals[ri])
             if cvals is not None:
-                rec.case(('seg-code', mode, str(cfg), row) if in_shift else None, (row, cvals[ri]), outcome=oc + ':code')
+                rec.case(('seg-code', mode, str(cfg), row) if (in_shift or merged_ref) else None, (row, cvals[ri]),
+                         outcome=oc + ':code')
                 if not close(cvals[ri], e) or not close(cvals[ri], vals[ri]):
                     rec.violation(f'C17|segmentation|generated-code-value,{tag}',
                                   f'executed segmented_code() of {cfg} on row {list(row)} ({mode}): {cvals[ri]}; '
@@ -1218,6 +1288,10 @@ def tasks(tier, seed):
     two = [(m, s) for m in locs for s in scales]
     families = [('normalpdf', two), ('lognormalpdf', two), ('logisticcdf', two), ('likelihoodregression', two),
                 ('loglikelihoodregression', two), ('uniformpdf', a['uni']), ('triangularpdf', a['tri'])]
+    # negative scale: inside the documented domain of loglikelihoodregression only (see check_dist); every
+    # location x every scale of the menu with the opposite sign x every way of passing the parameters
+    two_neg = [(m, -s) for m in locs for s in scales]
+    families += [('likelihoodregression', two_neg), ('loglikelihoodregression', two_neg)]
     for dist, plist in families:
         kinds = list(DIST_KINDS)
         if dist in ('likelihoodregression', 'loglikelihoodregression'):
